@@ -99,6 +99,22 @@ func vfC16Check(v *vfT, round int, offer vfFamCOffer, earlier []vfFamCOffer, pre
 		if prefKinds[sec.Kind] {
 			suffix = "/with-codec-preferences" // a local transceiver of this kind had SetCodecPreferences applied
 		}
+		if sec.Port0 == "rejected" {
+			// a retired offer section: JSEP says its contents are ignored; what the answer lists
+			// there is not this statement's business
+			v.Label("offer-section-rejected(skipped)")
+			continue
+		}
+		if sec.Port0 == "bundle-only" {
+			v.Label(fmt.Sprintf("offer-section-bundle-only:answer-port=%d", min(m.MediaName.Port.Value, 9)))
+			first := true
+			for j := 0; j < i; j++ {
+				first = first && offer.Sections[j].Kind != sec.Kind
+			}
+			if first {
+				v.Label("offer-section-bundle-only:first-of-its-kind")
+			}
+		}
 		if m.MediaName.Media != sec.Kind {
 			v.Label("answer-section-kind-differs(C07)")
 			continue
@@ -254,6 +270,9 @@ func vfC16Reoffer(t *rapid.T, g *vfFamCOfferGen, first vfFamCOffer) vfFamCOffer 
 	o.Data = first.Data
 	for _, s := range first.Sections {
 		n := vfFamCSection{Kind: s.Kind, Mid: s.Mid, Dir: s.Dir}
+		if s.Port0 == "rejected" {
+			n.Port0 = "rejected" // stays retired; a bundle-only section uses the shared port from now on
+		}
 		switch rapid.IntRange(0, 3).Draw(t, "reofferMode") {
 		case 0:
 			n.Codecs = append(n.Codecs, s.Codecs...)
@@ -283,22 +302,24 @@ func vfC16Reoffer(t *rapid.T, g *vfFamCOfferGen, first vfFamCOffer) vfFamCOffer 
 	if rapid.Bool().Draw(t, "addSection") {
 		mid := fmt.Sprint(len(first.Sections) + 10)
 		src := rapid.SampledFrom(first.Sections).Draw(t, "deriveFrom")
-		o.Sections = append(o.Sections, g.derive(src, mid))
+		add := g.derive(src, mid)
+		add.Port0 = rapid.SampledFrom([]string{"", "bundle-only", "bundle-only"}).Draw(t, "addPort0")
+		o.Sections = append(o.Sections, add)
 	}
 	return o
 }
 
 func TestVerif_C16_AnswerSubset(t *testing.T) {
 	vfProperty(t, "C16", vfOpts{
-		Rule: "local MediaEngine x 0..2 pre-existing transceivers (direction, optional SetCodecPreferences) x one or two sound foreign offers (first: 1..3 sections, often two of one kind where the later one lists a subset / the same codecs under new numbers / a reversed list / an independent list; second: re-offer that keeps, narrows or extends sections and may add one) -> SetRemoteDescription, CreateAnswer (answer applied before the re-offer); non-trivial = at least one answer was produced and checked",
+		Rule: "local MediaEngine x 0..2 pre-existing transceivers (direction, optional SetCodecPreferences) x one or two sound foreign offers (first: 1..3 sections, sections behind the first one also as a=bundle-only with port 0 - JSEP max-bundle style or individually - or retired with port 0 outside the BUNDLE group; often two of one kind where the later one lists a subset / the same codecs under new numbers / a reversed list / an independent list; second: re-offer that keeps, narrows or extends sections and may add one) -> SetRemoteDescription, CreateAnswer (answer applied before the re-offer); non-trivial = at least one answer was produced and checked",
 		Assumptions: []string{"offers are sound (RFC 8843 / RFC 3264 §8.3.2): a payload type denotes one codec across sections and across the re-offer, static payload types keep their RFC 3551 meaning, every format has an rtpmap",
-			"answer sections are paired with offer sections by position (C07 owns the mirroring itself); rejected sections (port 0) are skipped",
+			"answer sections are paired with offer sections by position (C07 owns the mirroring itself); rejected answer sections (port 0) and retired offer sections (port 0, not bundled: contents are ignored per JSEP) are skipped; a=bundle-only offer sections are live and checked",
 			"pion/sdp's parser is trusted for reading the answer"},
 	}, func(v *vfT) vfC16Case {
 		var c vfC16Case
 		c.Local = vfFamCGenLocal(v.R)
 		multi := rapid.IntRange(0, 9).Draw(v.R, "multi") < 6
-		first, g := vfFamCGenOffer(v.R, c.Local, multi, true)
+		first, g := vfFamCGenOffer(v.R, c.Local, multi, true, true)
 		c.Offers = append(c.Offers, first)
 		if rapid.IntRange(0, 9).Draw(v.R, "second") < 4 {
 			c.Offers = append(c.Offers, vfC16Reoffer(v.R, g, first))
